@@ -24,6 +24,9 @@ var bufioConsumers = map[string]bool{"Read": true, "ReadByte": true, "ReadBytes"
 func runC18(r *Run, p *Prog) {
 	// U4: an abandoned read must be joined before the operation returns, or its helper consumes the next bytes of the stream
 	siblingRules(r, p, "C17", []string{"D1", "D2", "D3"}, "U4")
+	// U5: every byte the buffered reader consumed is handed to the caller, also together with an error (the tail of a
+	// stream that ends without delimiter): the delimiter read returns what it read unchanged
+	siblingRules(r, p, "C02", []string{"F2"}, "U5")
 	ro := DiscoverRoles(p)
 	T := ro.T
 	if ro.ConnT == nil {
